@@ -1,6 +1,619 @@
-//! C11 — stub (to be implemented).
+//! C11 — FASTA/FASTQ indexing and random access return exactly the indexed bases.
+//!
+//! Monitor: generated FASTA files (explicit line layouts: widths 1..200, LF/CRLF, short last lines,
+//! missing final newline, blank trailing lines, descriptions; plain, bgzipped by an independent
+//! BGZF builder with tiny blocks, bgzipped by noodles' own writer; gzi from the independent walker)
+//! are indexed by `fasta::io::Indexer` through many buffer geometries and queried through
+//! `fasta::io::IndexedReader`; the oracle is a naive whole-file parse. Ragged files must be rejected
+//! or at least not mis-indexed. FASTA/FASTQ records written by noodles are read back (and indexed).
+
+mod index;
+mod model;
+mod rt;
+
+use noodles_bgzf as bgzf;
+use noodles_fasta::{self as fasta, fai};
+use serde_json::json;
+use std::io::Write;
+use vcore::{CaseOut, Ctx, Report, Rng, adv::Sizes, bgzf as obgzf, rng::fnv1a, run_cases};
+
+use index::{Stats, Viol};
+use model::{RecLayout, Term};
+
+#[derive(Clone, Copy, Debug, PartialEq, Eq)]
+pub enum Kind {
+    Index,
+    Ragged,
+    FastaRt,
+    Fastq,
+}
+
+#[derive(Clone, Debug)]
+pub struct Case {
+    pub kind: Kind,
+    /// bases per line
+    pub width: usize,
+    pub crlf: bool,
+    pub nseq: usize,
+    /// 0 plain, 1 bgzf built by the independent builder, 2 bgzf written by noodles
+    pub container: u8,
+    /// blank lines after (some) records: 0, 1, 2
+    pub blank: u8,
+    pub no_final_newline: bool,
+    /// ragged kind (Ragged cases)
+    pub ragged: u8,
+    /// long sequences (several hundred lines at small widths / several lines at large widths)
+    pub big: bool,
+    /// also through scratch files: fs::index, build_from_path (+ .fai/.gzi files)
+    pub fs: bool,
+    pub pseed: u64,
+}
+
+pub const RAGGED_KINDS: &[&str] = &[
+    "middle-line-longer",
+    "middle-line-shorter",
+    "middle-line-other-terminator",
+    "blank-line-inside",
+    "first-line-shorter",
+    "last-line-longer",
+    "two-short-lines-at-end",
+    "neighbours-plus-minus",
+    "last-line-other-terminator",
+    "every-line-different",
+];
+
+fn case_json(c: &Case) -> serde_json::Value {
+    json!({"kind": format!("{:?}", c.kind), "width": c.width, "crlf": c.crlf, "nseq": c.nseq, "container": c.container,
+           "blank": c.blank, "no_final_newline": c.no_final_newline,
+           "ragged": if c.kind == Kind::Ragged { RAGGED_KINDS[c.ragged as usize] } else { "" },
+           "big": c.big, "fs": c.fs, "pseed": c.pseed})
+}
+
+fn gen_cases(ctx: &Ctx) -> Vec<Case> {
+    let mut v = Vec::new();
+    let mut k = 0u64;
+    let mut seed = |k: &mut u64| {
+        *k += 1;
+        ctx.seed.wrapping_mul(0x9E37_79B9).wrapping_add(*k)
+    };
+    // deterministic corpus: geometry grid
+    let widths = [1usize, 2, 3, 4, 5, 7, 10, 13, 60, 61, 70, 80, 199, 200];
+    for (wi, &width) in widths.iter().enumerate() {
+        for crlf in [false, true] {
+            for container in 0..3u8 {
+                for nseq in [1usize, 3] {
+                    let i = wi + crlf as usize + container as usize + nseq;
+                    v.push(Case {
+                        kind: Kind::Index,
+                        width,
+                        crlf,
+                        nseq,
+                        container,
+                        blank: [0, 0, 1, 0, 2][i % 5],
+                        no_final_newline: i % 4 == 1,
+                        ragged: 0,
+                        big: i % 3 == 0,
+                        fs: i % 6 == 0,
+                        pseed: seed(&mut k),
+                    });
+                }
+            }
+        }
+    }
+    // every ragged kind x terminator x position of the ragged record x container
+    for ragged in 0..RAGGED_KINDS.len() as u8 {
+        for crlf in [false, true] {
+            for (j, width) in [1usize, 4, 9, 60].into_iter().enumerate() {
+                v.push(Case {
+                    kind: Kind::Ragged,
+                    width,
+                    crlf,
+                    nseq: 1 + (j + ragged as usize) % 3,
+                    container: ((j + ragged as usize) % 3) as u8,
+                    blank: 0,
+                    no_final_newline: (j + ragged as usize) % 4 == 0,
+                    ragged,
+                    big: false,
+                    fs: false,
+                    pseed: seed(&mut k),
+                });
+            }
+        }
+    }
+    for width in [1usize, 2, 7, 60, 80, 200, 1000] {
+        v.push(Case { kind: Kind::FastaRt, width, crlf: false, nseq: 12, container: 0, blank: 0, no_final_newline: false, ragged: 0, big: false, fs: width == 60, pseed: seed(&mut k) });
+    }
+    for j in 0..6usize {
+        v.push(Case { kind: Kind::Fastq, width: 0, crlf: j % 2 == 1, nseq: 25, container: 0, blank: 0, no_final_newline: j % 3 == 2, ragged: 0, big: false, fs: j == 0, pseed: seed(&mut k) });
+    }
+    // seeded random part
+    let n = ctx.budget("cases", 760, 30000);
+    let mut rng = Rng::new(ctx.seed, 0xC11, 0);
+    for _ in 0..n {
+        let r = rng.below(100);
+        let kind = if r < 66 {
+            Kind::Index
+        } else if r < 84 {
+            Kind::Ragged
+        } else if r < 92 {
+            Kind::FastaRt
+        } else {
+            Kind::Fastq
+        };
+        let width = match rng.below(6) {
+            0 => 1 + rng.usize_below(4),
+            1 | 2 => 1 + rng.usize_below(16),
+            3 => *rng.pick(&[50usize, 60, 61, 70, 80, 100]),
+            _ => 1 + rng.usize_below(200),
+        };
+        v.push(Case {
+            kind,
+            width,
+            crlf: rng.chance(2, 5),
+            nseq: match kind {
+                Kind::FastaRt => 4 + rng.usize_below(16),
+                Kind::Fastq => 5 + rng.usize_below(40),
+                _ => *rng.pick(&[1usize, 1, 2, 3, 3, 5, 9]),
+            },
+            container: *rng.pick(&[0u8, 0, 1, 1, 2]),
+            blank: *rng.pick(&[0u8, 0, 0, 1, 1, 2]),
+            no_final_newline: rng.chance(1, 4),
+            ragged: rng.below(RAGGED_KINDS.len() as u64) as u8,
+            big: rng.chance(1, 3),
+            fs: rng.chance(1, 10),
+            pseed: rng.next_u64(),
+        });
+    }
+    v
+}
+
+// -------------------------------------------------------------------------------------------
+
+fn pick_len(rng: &mut Rng, w: usize, big: bool) -> usize {
+    let lens: Vec<usize> = if big {
+        vec![3 * w + 1, 5 * w, 7 * w - 1, 10 * w + w / 2 + 1, 4 * w + rng.usize_below(20 * w + 1), 40 * w.min(30) + 3]
+    } else {
+        vec![1, w.saturating_sub(1), w, w + 1, 2 * w - 1, 2 * w, 2 * w + 1, 3 * w, 3 * w + 1, 1 + rng.usize_below(4 * w)]
+    };
+    let l = *rng.pick(&lens);
+    l.max(1)
+}
+
+fn build_layout(c: &Case, rng: &mut Rng) -> Vec<RecLayout> {
+    let term = if c.crlf { Term::CrLf } else { Term::Lf };
+    let mut recs = Vec::new();
+    for i in 0..c.nseq {
+        let len = pick_len(rng, c.width, c.big);
+        let mut lines = model::regular_lines(len, c.width, term);
+        // a last line whose terminator differs is still regular (faidx semantics)
+        if lines.len() > 1 && rng.chance(1, 12) {
+            let n = lines.len();
+            lines[n - 1].1 = if c.crlf { Term::Lf } else { Term::CrLf };
+        }
+        if c.blank > 0 && (rng.bool() || i + 1 == c.nseq) {
+            for _ in 0..c.blank {
+                lines.push((0, term));
+            }
+        }
+        recs.push(RecLayout {
+            name: model::gen_name(rng, i),
+            desc: model::gen_desc(rng),
+            def_sep: if rng.chance(1, 5) { b'\t' } else { b' ' },
+            def_term: if rng.chance(1, 10) { if c.crlf { Term::Lf } else { Term::CrLf } } else { term },
+            lines,
+        });
+    }
+    recs
+}
+
+/// Applies the ragged mutation to record `at`. The record gets at least 4 lines first.
+fn make_ragged(c: &Case, recs: &mut [RecLayout], at: usize, rng: &mut Rng) {
+    let term = if c.crlf { Term::CrLf } else { Term::Lf };
+    let other = if c.crlf { Term::Lf } else { Term::CrLf };
+    let w = c.width;
+    let nlines = 4 + rng.usize_below(4);
+    let last = 1 + rng.usize_below(w);
+    let mut lines: Vec<(usize, Term)> = (0..nlines - 1).map(|_| (w, term)).collect();
+    lines.push((last, term));
+    let mid = 1 + rng.usize_below(nlines - 2);
+    match c.ragged {
+        0 => lines[mid].0 = w + 1 + rng.usize_below(3),
+        1 => {
+            if w == 1 {
+                // a shorter line of width 1 is a blank line
+                lines[mid].0 = 0
+            } else {
+                lines[mid].0 = w - 1 - rng.usize_below((w - 1).min(3))
+            }
+        }
+        2 => lines[mid].1 = other,
+        3 => lines.insert(mid, (0, term)),
+        4 => {
+            if w == 1 {
+                lines[0].0 = 0
+            } else {
+                lines[0].0 = w - 1
+            }
+        }
+        5 => lines[nlines - 1].0 = w + 1 + rng.usize_below(3),
+        6 => {
+            lines[nlines - 2].0 = if w == 1 { 0 } else { 1 + rng.usize_below(w - 1) };
+        }
+        7 => {
+            lines[mid].0 = w + 2;
+            let nb = if mid + 1 <= nlines - 2 { mid + 1 } else { mid - 1 };
+            lines[nb].0 = w.saturating_sub(2);
+        }
+        8 => lines[nlines - 1].1 = other,
+        _ => {
+            for (j, l) in lines.iter_mut().enumerate() {
+                l.0 = 1 + (w + j * 3) % (w + 5);
+            }
+        }
+    }
+    recs[at].lines = lines;
+}
+
+struct Bgz {
+    bytes: Vec<u8>,
+    gzi: Vec<(u64, u64)>,
+    blocks: usize,
+}
+
+fn build_bgzf(c: &Case, plain: &[u8], rng: &mut Rng) -> Result<Bgz, String> {
+    let bytes = if c.container == 1 {
+        // independent builder, tiny blocks so that every terminator is split somewhere
+        let mode = rng.below(5);
+        let mut blocks: Vec<Vec<u8>> = Vec::new();
+        let mut p = 0usize;
+        while p < plain.len() {
+            let n = match mode {
+                0 => 1,
+                1 => 1 + rng.usize_below(7),
+                2 => 1 + rng.usize_below(64),
+                3 => c.width + if c.crlf { 1 } else { 0 }, // block ends between CR and LF / before LF
+                _ => 1 + rng.usize_below(4096),
+            };
+            let n = n.min(plain.len() - p).max(1);
+            blocks.push(plain[p..p + n].to_vec());
+            p += n;
+            if rng.chance(1, 25) {
+                blocks.push(Vec::new()); // empty member in the middle
+            }
+        }
+        let enc = if rng.bool() { obgzf::Enc::Stored } else { obgzf::Enc::Deflate(6) };
+        obgzf::build_file(&blocks, enc, 1)
+    } else {
+        let every = *rng.pick(&[1usize, 3, 5, 17, 64, 1000, 100_000]);
+        let r = vcore::guard::catch(|| -> std::io::Result<Vec<u8>> {
+            let mut w = bgzf::io::Writer::new(Vec::new());
+            for piece in plain.chunks(every) {
+                w.write_all(piece)?;
+                if every < 100_000 {
+                    w.flush()?;
+                }
+            }
+            w.finish()
+        });
+        match r {
+            Ok(Ok(b)) => b,
+            Ok(Err(e)) => return Err(format!("noodles bgzf writer failed: {e}")),
+            Err(p) => return Err(format!("noodles bgzf writer panicked: {}", p.message)),
+        }
+    };
+    let walk = obgzf::walk(&bytes).map_err(|e| format!("independent walker rejects the BGZF container: {e}"))?;
+    if walk.concat() != plain {
+        return Err("BGZF container does not inflate to the plain FASTA".into());
+    }
+    let gzi = model::gzi_entries(&walk, rng.bool());
+    Ok(Bgz { bytes, gzi, blocks: walk.members.len() })
+}
+
+fn run_index_case(ctx: &Ctx, idx: u64, c: &Case, o: &mut CaseOut) {
+    let mut rng = Rng::new(c.pseed, 0x1D, 0);
+    let mut recs = build_layout(c, &mut rng);
+    let ragged_at = if c.kind == Kind::Ragged {
+        let at = rng.usize_below(recs.len());
+        make_ragged(c, &mut recs, at, &mut rng);
+        Some(at)
+    } else {
+        None
+    };
+    if c.no_final_newline {
+        if let Some(l) = recs.last_mut().and_then(|r| r.lines.last_mut()) {
+            if l.0 > 0 {
+                l.1 = Term::None;
+            }
+        }
+    }
+    let rendered = model::render(&recs, &mut rng);
+    let plain = rendered.bytes;
+    let naive = match model::naive_parse_fasta(&plain) {
+        Ok(n) => n,
+        Err(e) => {
+            o.inconclusive.push(format!("harness: naive parser rejects the generated file: {e}"));
+            return;
+        }
+    };
+    if naive.len() != rendered.seqs.len() || naive.iter().zip(&rendered.seqs).any(|(n, g)| n.name != g.0 || n.seq != g.1) {
+        o.inconclusive.push("harness: naive parse disagrees with the generator's description".into());
+        return;
+    }
+    let strictly_regular = naive.iter().all(|n| n.strictly_regular());
+    let geometry_defined = naive.iter().all(|n| n.regular_with_trailing_blanks());
+    let mut st = Stats::default();
+    let mut viols: Vec<Viol> = Vec::new();
+
+    // (i) indexer through every input form
+    let mut forms = index::indexer_forms(&plain, &mut rng, &mut st);
+    let bgz = if c.container > 0 {
+        match build_bgzf(c, &plain, &mut rng) {
+            Ok(b) => Some(b),
+            Err(e) => {
+                o.inconclusive.push(format!("harness: {e}"));
+                return;
+            }
+        }
+    } else {
+        None
+    };
+    if let Some(b) = &bgz {
+        forms.push((format!("bgzf reader ({} members)", b.blocks), index::index_with(bgzf::io::Reader::new(&b.bytes[..]))));
+        st.indexer_runs += 1;
+        o.count("bgzf_members", b.blocks as u64);
+    }
+    let fa_path = ctx.work.join(format!("c{idx}.fa"));
+    if c.fs {
+        index::write_file(&fa_path, &plain);
+        let p = fa_path.clone();
+        let r = vcore::guard::catch(move || fasta::fs::index(&p));
+        let r = match r {
+            Err(p) => Err(format!("panic:{}", p.sig)),
+            Ok(Err(e)) => Err(format!("{:?}/{}", e.kind(), if e.to_string().starts_with("invalid line") { "InvalidLine" } else { "other" })),
+            Ok(Ok(ix)) => Ok(Vec::<fai::Record>::from(ix)),
+        };
+        forms.push(("fasta::fs::index".into(), r));
+        st.indexer_runs += 1;
+        o.count("fs_index_calls", 1);
+    }
+    let accepted: Vec<bool> = forms.iter().map(|f| f.1.is_ok()).collect();
+    for (name, out) in &forms {
+        match out {
+            Ok(_) => st.indexer_accepts += 1,
+            Err(e) => {
+                st.indexer_rejects += 1;
+                if let Some(sig) = e.strip_prefix("panic:") {
+                    viols.push((format!("indexer:panic:{sig}"), format!("indexer over {name} panicked")));
+                } else if strictly_regular {
+                    viols.push((
+                        format!("indexer:rejects-regular-file:{}", e.split('/').nth(1).unwrap_or("other")),
+                        format!("indexer over {name} rejects a regular FASTA (no blank lines, equal line geometry, short last line): {e}"),
+                    ));
+                }
+            }
+        }
+    }
+    if accepted.iter().any(|&a| a) && accepted.iter().any(|&a| !a) && viols.is_empty() {
+        let yes: Vec<&str> = forms.iter().filter(|f| f.1.is_ok()).map(|f| f.0.as_str()).collect();
+        let no: Vec<String> = forms.iter().filter(|f| f.1.is_err()).map(|f| format!("{} ({})", f.0, f.1.as_ref().err().unwrap())).collect();
+        viols.push(("indexer:decision-depends-on-buffering".into(), format!("accepted over {yes:?} but rejected over {no:?}")));
+    }
+    // all accepting forms must agree with each other, and with the naive geometry where it is defined
+    let first_ok = forms.iter().find(|f| f.1.is_ok()).map(|f| (f.0.clone(), f.1.clone().unwrap()));
+    if let Some((n0, r0)) = &first_ok {
+        for (name, out) in &forms {
+            if let Ok(r) = out {
+                if geometry_defined {
+                    if let Some(v) = index::compare_with_naive(r, &naive, name) {
+                        viols.push(v);
+                        break;
+                    }
+                } else if r != r0 {
+                    viols.push(("indexer:result-depends-on-buffering".into(), format!("index over {name} differs from the index over {n0}")));
+                    break;
+                }
+            }
+        }
+    }
+    if c.kind == Kind::Ragged {
+        o.count(&format!("ragged[{}].{}", RAGGED_KINDS[c.ragged as usize], if first_ok.is_some() { "accepted" } else { "rejected" }), 1);
+    } else if !strictly_regular {
+        o.count(&format!("blank_trailing_lines[{}].{}", c.blank, if first_ok.is_some() { "accepted" } else { "rejected" }), 1);
+    }
+
+    // (ii)/(iii) queries through the index noodles produced
+    if let (Some((_, records)), true) = (first_ok, viols.is_empty()) {
+        let ix = fai::Index::from(records);
+        let mis_sig = ragged_at.map(|_| format!("ragged:accepted-and-misindexed:{}", RAGGED_KINDS[c.ragged as usize]));
+        let mis = mis_sig.as_deref();
+        let exhaustive_max = ctx.budget("exhaustive_max", 22, 40) as usize;
+        let mut qs = Vec::new();
+        let mut any_exh = false;
+        for (i, n) in naive.iter().enumerate() {
+            let lb = n.line_bases().max(1) as usize;
+            let (q, exh) = index::queries_for(i, n.seq.len(), lb, &mut rng, exhaustive_max, ctx.budget("random_regions", 40, 120) as usize);
+            any_exh |= exh;
+            qs.extend(q);
+        }
+        if any_exh {
+            o.count("sequences_queried_exhaustively", naive.iter().filter(|n| n.seq.len() <= exhaustive_max).count() as u64);
+        }
+        match &bgz {
+            None => {
+                let cap = *rng.pick(&[1usize, 2, 3, 5, 8, 64, 8192]);
+                let mut r = index::plain_reader_a(&plain, cap, ix.clone());
+                viols.extend(index::run_queries(&mut r, &naive, &qs, "plain", &format!("IndexedReader<BufReader({cap})<Cursor>>"), mis, &mut st));
+                let sizes = if rng.bool() { Sizes::Random(1 + rng.usize_below(9), rng.next_u64()) } else { Sizes::Cuts(index::terminator_cuts(&plain)) };
+                match index::plain_reader_b(&plain, sizes, ix.clone()) {
+                    Ok(mut r) => viols.extend(index::run_queries(&mut r, &naive, &qs, "plain", "Builder::build_from_reader(ChunkedRead)", mis, &mut st)),
+                    Err(e) => viols.push(("query:builder-failed".into(), format!("indexed_reader::Builder::build_from_reader: {e}"))),
+                }
+            }
+            Some(b) => {
+                let mut r = index::bgzf_reader(&b.bytes, b.gzi.clone(), ix.clone());
+                viols.extend(index::run_queries(&mut r, &naive, &qs, "bgzf", &format!("IndexedReader<bgzf::IndexedReader> ({} members, {} gzi entries)", b.blocks, b.gzi.len()), mis, &mut st));
+                o.count("bgzf_files_queried", 1);
+            }
+        }
+        if c.fs {
+            // through files: <x>.fa(.gz) + .fai written by noodles + .gzi written by the harness
+            let (path, data) = match &bgz {
+                None => (fa_path.clone(), None),
+                Some(b) => (ctx.work.join(format!("c{idx}.fa.gz")), Some(b)),
+            };
+            if let Some(b) = data {
+                index::write_file(&path, &b.bytes);
+                index::write_file(&ctx.work.join(format!("c{idx}.fa.gz.gzi")), &model::gzi_file_bytes(&b.gzi));
+            }
+            let fai_path = std::path::PathBuf::from(format!("{}.fai", path.display()));
+            let built = vcore::guard::catch(|| -> std::io::Result<_> {
+                fai::fs::write(&fai_path, &ix)?;
+                let back = fai::fs::read(&fai_path)?;
+                if back != ix {
+                    return Err(std::io::Error::other("fai file does not read back equal"));
+                }
+                fasta::io::indexed_reader::Builder::default().build_from_path(&path)
+            });
+            match built {
+                Ok(Ok(mut r)) => {
+                    let sub: Vec<index::Q> = qs.iter().step_by(3).copied().collect();
+                    viols.extend(index::run_queries(&mut r, &naive, &sub, if bgz.is_some() { "bgzf" } else { "plain" }, "Builder::build_from_path", mis, &mut st));
+                    o.count("build_from_path_readers", 1);
+                }
+                Ok(Err(e)) => viols.push(("query:build-from-path-failed".into(), format!("fai write/read + build_from_path({}): {e}", path.display()))),
+                Err(p) => viols.push((format!("query:panic:{}", p.sig), format!("build_from_path panicked: {}", p.message))),
+            }
+        }
+        // Repository over the IndexedReader adapter returns whole sequences
+        if ragged_at.is_none() {
+            let rd = index::plain_reader_a(&plain, 4096, ix.clone());
+            let repo = fasta::Repository::new(fasta::repository::adapters::IndexedReader::new(rd));
+            for n in &naive {
+                st.queries += 1;
+                let got = vcore::guard::catch(|| repo.get(&n.name));
+                match got {
+                    Ok(Some(Ok(s))) => {
+                        let g: &[u8] = (*s).as_ref();
+                        if g != &n.seq[..] {
+                            viols.push(("repository:sequence-ne-naive".into(), format!("Repository::get({:?}) returned {} bases, naive parse has {}", String::from_utf8_lossy(&n.name), g.len(), n.seq.len())));
+                            break;
+                        }
+                    }
+                    Ok(Some(Err(e))) => {
+                        viols.push(("repository:error".into(), format!("Repository::get failed: {e}")));
+                        break;
+                    }
+                    Ok(None) => {
+                        viols.push(("repository:missing".into(), "Repository::get returned None for an indexed name".into()));
+                        break;
+                    }
+                    Err(p) => {
+                        viols.push((format!("repository:panic:{}", p.sig), p.message));
+                        break;
+                    }
+                }
+            }
+            o.count("repository_gets", naive.len() as u64);
+        }
+    }
+
+    o.evaluations = st.indexer_runs + st.queries;
+    o.count("files", 1);
+    o.count(if c.container == 0 { "files_plain" } else if c.container == 1 { "files_bgzf_independent_builder" } else { "files_bgzf_noodles_writer" }, 1);
+    o.count("indexer_runs", st.indexer_runs);
+    o.count("indexer_accepts", st.indexer_accepts);
+    o.count("indexer_rejects", st.indexer_rejects);
+    o.count("queries", st.queries);
+    o.count("queries_in_range", st.queries_in_range);
+    o.count("queries_clipped_at_end", st.queries_clipped);
+    o.count("queries_start_beyond_end", st.queries_beyond);
+    o.count("start_beyond_end.error", st.beyond_err);
+    o.count("start_beyond_end.empty", st.beyond_empty);
+    o.count("start_beyond_end.foreign_bytes", st.beyond_foreign);
+    o.count("window_boundaries_at_terminators", st.split_terminator_fills);
+    let maxlen = naive.iter().map(|n| n.seq.len()).max().unwrap_or(0);
+    o.max("max_sequence_length", maxlen as u64);
+    let wclass = match c.width {
+        1 => "1".to_string(),
+        2..=4 => "2-4".into(),
+        5..=16 => "5-16".into(),
+        17..=79 => "17-79".into(),
+        80..=199 => "80-199".into(),
+        _ => "200".into(),
+    };
+    o.fp = fnv1a(
+        format!(
+            "{:?}|{}|{}|{}|{}|{}|{}|{}|{}|{}",
+            c.kind,
+            wclass,
+            c.crlf,
+            c.nseq.min(4),
+            c.container,
+            c.blank,
+            c.no_final_newline,
+            if c.kind == Kind::Ragged { c.ragged as i32 } else { -1 },
+            c.big,
+            c.fs
+        )
+        .as_bytes(),
+    );
+    let mut seen = std::collections::BTreeSet::new();
+    for (sig, desc) in viols {
+        if seen.insert(sig.clone()) {
+            o.violation_with(sig, desc, json!({"file_head": String::from_utf8_lossy(&plain[..plain.len().min(300)]), "file_len": plain.len()}));
+        }
+    }
+    if c.fs && std::env::var_os("VERIF_KEEP_WORK").is_none() {
+        for ext in ["fa", "fa.fai", "fa.gz", "fa.gz.fai", "fa.gz.gzi"] {
+            let _ = std::fs::remove_file(ctx.work.join(format!("c{idx}.{ext}")));
+        }
+    }
+}
 
 fn main() {
-    eprintln!("c11: not implemented");
-    std::process::exit(2);
+    let ctx = Ctx::from_args();
+    let ctx = vcore::cases::replay_request(&ctx).map(|r| r.1).unwrap_or(ctx);
+    let mut rep = Report::new(
+        "case = one generated file with all its indexer runs and region queries (Index/Ragged), or one batch of \
+         records written by noodles and read back (FastaRt/Fastq); deterministic grid (14 line widths x LF/CRLF x \
+         plain/bgzf-independent/bgzf-noodles x 1|3 records; 10 ragged kinds x LF/CRLF x 4 widths; 7 writer line widths; \
+         6 FASTQ batches) plus a VERIF_SEED-seeded random part; evaluations = indexer runs + region queries + records \
+         read back; distinct = distinct (kind, width class, terminator, record-count class, container, blank-line \
+         count, missing final newline, ragged kind, long/short sequences, file API used); non-trivial = all",
+    );
+    rep.assumptions.push("oracle = naive whole-file FASTA/FASTQ parser of the harness (lines split at LF, one CR stripped, '>' starts a record, name = up to first blank); BGZF containers judged by the independent walker (miniz_oxide); gzi = (member offset, inflated offset) of every member after the first, with or without the EOF member".into());
+    rep.assumptions.push("a region whose start lies beyond the sequence end may yield an error or an empty record; a regular file is one whose lines all have the first line's geometry except a last line with at most as many bases (terminator free); blank trailing lines may be accepted or rejected, consistently over all buffer geometries; a ragged file that is accepted is a violation only if some query answer differs from the naive parse".into());
+    rep.assumptions.push("FASTA names are free of blanks and descriptions have no leading/trailing blanks (format-inherent); FASTQ names are free of blanks; noodles' writers emit LF only".into());
+    let cases = gen_cases(&ctx);
+    let f = |i: u64| -> CaseOut {
+        let c = &cases[i as usize];
+        let mut o = CaseOut::new();
+        match c.kind {
+            Kind::Index | Kind::Ragged => run_index_case(&ctx, i, c, &mut o),
+            Kind::FastaRt => rt::run_fasta_rt(&ctx, i, c, &mut o),
+            Kind::Fastq => rt::run_fastq(&ctx, i, c, &mut o),
+        }
+        if i % 97 == 0 {
+            o.sample = Some(case_json(c));
+        }
+        o
+    };
+    run_cases(&ctx, &mut rep, cases.len() as u64, 60.0, &f, &|i| case_json(&cases[i as usize]));
+    if ctx.replay.is_none() {
+        let g = |k: &str| rep.counters.get(k).copied().unwrap_or(0);
+        let q = ctx.quick();
+        rep.floor("files", g("files"), if q { 400 } else { 10000 });
+        rep.floor("queries", g("queries"), if q { 60_000 } else { 1_000_000 });
+        rep.floor("queries_in_range", g("queries_in_range"), 20_000);
+        rep.floor("queries_clipped_at_end", g("queries_clipped_at_end"), 5_000);
+        rep.floor("queries_start_beyond_end", g("queries_start_beyond_end"), 5_000);
+        rep.floor("indexer_accepts", g("indexer_accepts"), 2_000);
+        rep.floor("indexer_rejects", g("indexer_rejects"), 200);
+        rep.floor("bgzf_files_queried", g("bgzf_files_queried"), 50);
+        rep.floor("build_from_path_readers", g("build_from_path_readers"), 10);
+        rep.floor("fasta_records_read_back", g("fasta_records_read_back"), 300);
+        rep.floor("fastq_records_read_back", g("fastq_records_read_back"), 500);
+        rep.floor("fastq_index_records_compared", g("fastq_index_records_compared"), 500);
+    }
+    rep.finish(&ctx);
 }
